@@ -156,7 +156,7 @@ def main():
                 results.append(r)
                 st = r["stats"]
                 log("  %-60s %-12s %6.0fs  vars=%s steps=%s %s" % (
-                    "::".join(h["fqn"].split("::")[-2:]), r["verdict"], r["wall_s"], st.get("sat_vars"),
+                    "::".join(h["fqn"].split("::")[-3:]).replace("verif_", ""), r["verdict"], r["wall_s"], st.get("sat_vars"),
                     st.get("symex_steps"), "; ".join(r["notes"])[:200]))
 
         # ---- failures: playback/replay, known findings
@@ -186,7 +186,7 @@ def main():
             if kf:
                 known_hits.append((kf[0], r))
             else:
-                path = os.path.join(VERIF, "evidence", "replay", "%s-%s.json" % (pid, h["fn"].replace("::", ".")))
+                path = os.path.join(VERIF, "evidence", "replay", "%s-%s.json" % (pid, ".".join(h["fqn"].split("::")[-3:])))
                 json.dump({"property": pid, "harness": h["fqn"], "key": key,
                            "failed_checks": mine, "replay": rp, "what": h.get("what")},
                           open(path, "w"), indent=1)
